@@ -65,6 +65,38 @@ def exec (qs : List (List Bytes)) (sched : List Nat) : Run :=
 def linesOf (w : Nat) (trace : List (Nat × Bytes)) : List Bytes :=
   (trace.filter (fun e => e.1 == w)).map (·.2)
 
+/-! ### raw-write granularity
+
+What reaches the OS for one append / one rewrite is a list of raw `write(2)` chunks (recorded by
+the harness under the buffered handle the code opens).  The atomic step of `exec` above is ONE
+raw write, so concurrent writers interleave at chunk boundaries: framing survives every
+interleaving iff every chunk ends at a frame boundary. -/
+
+/-- every raw-write chunk is a sequence of complete LF-terminated lines. -/
+def chunksCompleteB (chunks : List Bytes) : Bool := chunks.all (fun c => (parseLines c).2 == [])
+
+/-- Monitor for one open handle: chunk boundaries only at line ends, and the chunks add up to
+exactly the expected bytes. -/
+def rawWritesOkB (chunks : List Bytes) (expect : Bytes) : Bool :=
+  chunksCompleteB chunks && chunks.flatten == expect
+
+def mergesAux {α : Type} (x : α) (xs : List α) (recx : List α → List (List α)) :
+    List α → List (List α)
+  | [] => [x :: xs]
+  | y :: ys => (recx (y :: ys)).map (x :: ·) ++ (mergesAux x xs recx ys).map (y :: ·)
+
+/-- all interleavings of two writers' chunk sequences (each writer's order kept). -/
+def merges {α : Type} : List α → List α → List (List α)
+  | [], ys => [ys]
+  | x :: xs, ys => mergesAux x xs (merges xs) ys
+
+/-- Monitor: EVERY interleaving of the two writers' raw writes parses into complete lines, all
+of them among the expected lines and as many as expected. -/
+def allMergesFramedB (w1 w2 : List Bytes) (expected : List Bytes) : Bool :=
+  (merges w1 w2).all (fun m =>
+    let p := parseLines m.flatten
+    p.2 == [] && p.1.length == expected.length && p.1.all (fun l => expected.contains l))
+
 /-! ### rewrite_jsonl -/
 
 /-- `text.replace("\r\n", "\n")` of `atomic_write_text`. -/
